@@ -225,6 +225,7 @@ type callInfo struct {
 	push    bool             // PushOperators: several dispatches inside one call
 	removed *opTrack         // RemoveOperator(removed) returned true
 	wall    time.Duration
+	reads   int // region-cache reads the controller made during the call
 }
 
 // call runs one controller call, then drains the heartbeat stream and samples everything.
@@ -244,10 +245,39 @@ func (w *world) call(ci *callInfo, f func()) {
 			}
 		}()
 		t0 := time.Now()
+		w.hc.reads = 0
 		f()
 		ci.wall = time.Since(t0)
+		ci.reads = w.hc.reads
 	}()
 	w.observe(ci)
+	w.lastReads = ci.reads
+	if w.inj != nil && w.inj.done {
+		w.inj = nil
+	}
+}
+
+// altView: the region as the cache held it earlier during the running call (a cache update was placed
+// inside the call). Either view was "the region at that moment" for some moment of the call.
+func (w *world) altView(g *reg) *core.RegionInfo {
+	if w.inj != nil && w.inj.done && w.inj.g == g {
+		return w.inj.before
+	}
+	return nil
+}
+
+func headerMatches(m *pdpb.RegionHeartbeatResponse, view *core.RegionInfo) string {
+	if view == nil {
+		return "region"
+	}
+	e, ve := m.GetRegionEpoch(), view.GetRegionEpoch()
+	switch {
+	case e.GetConfVer() != ve.GetConfVer() || e.GetVersion() != ve.GetVersion():
+		return "epoch"
+	case m.GetTargetPeer().GetId() != view.GetLeader().GetId() || m.GetTargetPeer().GetStoreId() != view.GetLeader().GetStoreId():
+		return "target-peer"
+	}
+	return ""
 }
 
 // observe: drain commands, sample the running set and every live operator's status, judge.
@@ -317,20 +347,22 @@ func (w *world) observe(ci *callInfo) {
 		if ci.hbView != nil && ci.g == g {
 			view = ci.hbView
 		}
+		alt := w.altView(g)
+		if view == nil {
+			view = alt
+		}
 		if view == nil {
 			report("command-for-region-unknown-to-pd:"+ci.name, fmt.Sprintf("%s sent a %s command for region %d which pd's cache does not hold", ci.name, kind, g.id), w.phase, 0,
 				func() map[string]interface{} { return map[string]interface{}{"command": m.String(), "call": ci.name} })
 			continue
 		}
-		bad := ""
 		e, ve := m.GetRegionEpoch(), view.GetRegionEpoch()
-		switch {
-		case e.GetConfVer() != ve.GetConfVer() || e.GetVersion() != ve.GetVersion():
-			bad = "epoch"
-		case m.GetTargetPeer().GetId() != view.GetLeader().GetId() || m.GetTargetPeer().GetStoreId() != view.GetLeader().GetStoreId():
-			bad = "target-peer"
+		bad := headerMatches(m, view)
+		if bad != "" && alt != nil && headerMatches(m, alt) == "" {
+			bad = "" // stamped from the view the cache held earlier during this call
+			r.Count("command_stamped_from_view_before_inside_update", 1)
 		}
-		if bad == "" && !g.dirty && !g.dead {
+		if bad == "" && !g.dirty && !g.dead && alt == nil {
 			// pd's view is the store's state: then the command must be acceptable to the store's routing checks
 			if mm := g.sim.HeaderMismatch(m); mm != "" {
 				r.Inconclusive("harness: view and simulator disagree although in sync: %s", mm)
@@ -411,15 +443,30 @@ func (w *world) observe(ci *callInfo) {
 		if old := prev[rid]; old != nil && old.removedBy == "" {
 			old.removedBy = "replaced-by-op" // our own higher-priority operator
 		}
-		if g.view == nil {
+		views := []*core.RegionInfo{}
+		if g.view != nil {
+			views = append(views, g.view)
+		}
+		if a := w.altView(g); a != nil {
+			views = append(views, a)
+		}
+		if len(views) == 0 {
 			tt := t
 			report("admitted-for-region-unknown-to-pd:"+ci.name, fmt.Sprintf("operator admitted by %s for region %d which pd's cache does not hold", ci.name, rid),
 				w.phase, len(g.log)-t.logAt, func() map[string]interface{} { return w.opWitness(tt, nil) })
 			continue
 		}
-		oe, ve := t.op.RegionEpoch(), g.view.GetRegionEpoch()
+		oe := t.op.RegionEpoch()
+		okEpoch := false
+		for _, v := range views {
+			ve := v.GetRegionEpoch()
+			if oe.GetConfVer() == ve.GetConfVer() && oe.GetVersion() == ve.GetVersion() {
+				okEpoch = true
+			}
+		}
+		ve := views[0].GetRegionEpoch()
 		g.logf("#%d PD admits op%d [%s] (recorded at %s, region at %s) during %s", w.evNo, t.id, t.shape, epochStr(oe), epochStr(ve), ci.name)
-		if oe.GetConfVer() != ve.GetConfVer() || oe.GetVersion() != ve.GetVersion() {
+		if !okEpoch {
 			tt := t
 			report("admitted-with-epoch-mismatch:"+ci.name, fmt.Sprintf("%s admitted an operator recorded at %s while the region is at %s", ci.name, epochStr(oe), epochStr(ve)),
 				w.phase, len(g.log)-t.logAt, func() map[string]interface{} { return w.opWitness(tt, map[string]interface{}{"call": ci.name}) })
